@@ -337,8 +337,9 @@ def compare_group(ctx, rr, g, allowed):
     rr.samples.append({"group": g["name"], "common_items": len(common), "all_items": len(union)})
 
 
-@rule("R02.9", props=["C02", "C04"], floor=4, title="further sibling pairs agree up to their confirmed differences (EF index_of/succ scans; SelectSmall/SelectZeroSmall)")
+@rule("R02.9", props=["C02", "C04"], floor=2, title="further sibling pairs agree up to their confirmed differences (EF index_of/succ scans; SelectSmall/SelectZeroSmall)")
 def r02_9(ctx, rr):
     tab = load_table("sibling_groups.json")
     for g in SIBLING_GROUPS:
-        compare_group(ctx, rr, g, tab.get(g["name"], []))
+        if getattr(ctx, "prop", None) in g["props"] or getattr(ctx, "prop", None) is None:
+            compare_group(ctx, rr, g, tab.get(g["name"], []))
